@@ -675,6 +675,7 @@ package evaluator
 //@   tags C03 C06 C15 C02
 //@   loop 1
 //@     invariant[C03 C06 C15] i == it_n && len(r) == len(m) && fresh(r)
+//@     invariant[C02 C15] members: isObj(v0) && m == obj(v0) && (forall j Int :: 0 <= j && j < i ==> isStr(r[j]) && has(m, str(r[j])))
 //@ func values
 //@   tags C03 C06 C15 C02
 //@   loop 1
@@ -692,6 +693,7 @@ package evaluator
 //@     bound len(str(v0))
 //@   loop 2
 //@     invariant 0 <= i && i <= l && j == l - 1 - i && len(r) == l && l == len(a) && fresh(r)
+//@     invariant[C02] order: isArr(v0) && a == arr(v0) && (forall k Int :: 0 <= k && k < i ==> r[l - 1 - k] == a[k])
 //@     decreases l - i
 //@     bound len(arr(v0))
 
@@ -1005,3 +1007,98 @@ package evaluator
 //@   ensures[C13 C02] strings.only: isArr(v) && len(arr(v)) >= 1 && isStr(arr(v)[0]) && result1 == nil ==> (forall k Int :: 0 <= k && k < len(arr(v)) ==> isStr(arr(v)[k]))
 //@   ensures[C13 C02] numbers.only: isArr(v) && len(arr(v)) >= 1 && !isStr(arr(v)[0]) && result1 == nil ==> (forall k Int :: 0 <= k && k < len(arr(v)) ==> numOk(arr(v)[k]))
 //@   ensures[C13 C02 C08] failure: result1 != nil ==> result0 == nil
+
+// string builtins that delegate to package strings (C02): the argument types and the library function applied
+//@ func lower
+//@   tags C02 C03 C06 C11
+//@   ensures[C02] type: !isStr(v) ==> result0 == nil && isTypeErr(result1)
+//@   ensures[C02] value: isStr(v) ==> result1 == nil && isStr(result0) && str(result0) == strToLower(str(v))
+//@ func upper
+//@   tags C02 C03 C06 C11
+//@   ensures[C02] type: !isStr(v) ==> result0 == nil && isTypeErr(result1)
+//@   ensures[C02] value: isStr(v) ==> result1 == nil && isStr(result0) && str(result0) == strToUpper(str(v))
+//@ func trimSpace
+//@   tags C02 C03 C06 C11
+//@   ensures[C02] type: !isStr(value) ==> result0 == nil && isTypeErr(result1)
+//@   ensures[C02] value: isStr(value) ==> result1 == nil && isStr(result0) && str(result0) == strTrimSpace(str(value))
+//@ func trimSpaceLeft
+//@   tags C02 C03 C06 C11
+//@   ensures[C02] type: !isStr(value) ==> result0 == nil && isTypeErr(result1)
+//@   ensures[C02] value: isStr(value) ==> result1 == nil && isStr(result0) && str(result0) == strTrimSpaceLeft(str(value))
+//@ func trimSpaceRight
+//@   tags C02 C03 C06 C11
+//@   ensures[C02] type: !isStr(value) ==> result0 == nil && isTypeErr(result1)
+//@   ensures[C02] value: isStr(value) ==> result1 == nil && isStr(result0) && str(result0) == strTrimSpaceRight(str(value))
+//@ func endsWith
+//@   tags C02 C03 C06
+//@   ensures[C02] type.value: !isStr(value) ==> result0 == nil && isTypeErr(result1)
+//@   ensures[C02] type.arg: isStr(value) && !isStr(suffix) ==> result0 == nil && isTypeErr(result1)
+//@   ensures[C02] value: isStr(value) && isStr(suffix) ==> result1 == nil && result0 == mkBool(strHasSuffix(key(str(value)), key(str(suffix))))
+//@ func startsWith
+//@   tags C02 C03 C06
+//@   ensures[C02] type.value: !isStr(value) ==> result0 == nil && isTypeErr(result1)
+//@   ensures[C02] type.arg: isStr(value) && !isStr(prefix) ==> result0 == nil && isTypeErr(result1)
+//@   ensures[C02] value: isStr(value) && isStr(prefix) ==> result1 == nil && result0 == mkBool(strHasPrefix(key(str(value)), key(str(prefix))))
+//@ func trim
+//@   tags C02 C03 C06 C11
+//@   ensures[C02] type.value: !isStr(value) ==> result0 == nil && isTypeErr(result1)
+//@   ensures[C02] type.arg: isStr(value) && !isStr(cut) ==> result0 == nil && isTypeErr(result1)
+//@   ensures[C02] default: isStr(value) && isStr(cut) && len(str(cut)) == 0 ==> result1 == nil && isStr(result0) && str(result0) == strTrimSpace(str(value))
+//@   ensures[C02] value: isStr(value) && isStr(cut) && len(str(cut)) > 0 ==> result1 == nil && isStr(result0) && str(result0) == strTrim(str(value), str(cut))
+//@ func trimLeft
+//@   tags C02 C03 C06 C11
+//@   ensures[C02] type.value: !isStr(value) ==> result0 == nil && isTypeErr(result1)
+//@   ensures[C02] type.arg: isStr(value) && !isStr(cut) ==> result0 == nil && isTypeErr(result1)
+//@   ensures[C02] default: isStr(value) && isStr(cut) && len(str(cut)) == 0 ==> result1 == nil && isStr(result0) && str(result0) == strTrimSpaceLeft(str(value))
+//@   ensures[C02] value: isStr(value) && isStr(cut) && len(str(cut)) > 0 ==> result1 == nil && isStr(result0) && str(result0) == strTrimLeft(str(value), str(cut))
+//@ func trimRight
+//@   tags C02 C03 C06 C11
+//@   ensures[C02] type.value: !isStr(value) ==> result0 == nil && isTypeErr(result1)
+//@   ensures[C02] type.arg: isStr(value) && !isStr(cut) ==> result0 == nil && isTypeErr(result1)
+//@   ensures[C02] default: isStr(value) && isStr(cut) && len(str(cut)) == 0 ==> result1 == nil && isStr(result0) && str(result0) == strTrimSpaceRight(str(value))
+//@   ensures[C02] value: isStr(value) && isStr(cut) && len(str(cut)) > 0 ==> result1 == nil && isStr(result0) && str(result0) == strTrimRight(str(value), str(cut))
+//@ func replace
+//@   tags C02 C03 C06 C11
+//@   ensures[C02] type.value: !isStr(value) ==> result0 == nil && isTypeErr(result1)
+//@   ensures[C02] type.old: isStr(value) && !isStr(old) ==> result0 == nil && isTypeErr(result1)
+//@   ensures[C02] type.new: isStr(value) && isStr(old) && !isStr(new) ==> result0 == nil && isTypeErr(result1)
+//@   ensures[C02] value: isStr(value) && isStr(old) && isStr(new) ==> result1 == nil && isStr(result0) && str(result0) == strReplace(str(value), str(old), str(new), 0 - 1)
+
+// object enumerations (C02, C15): length, and where each element comes from
+//@ func keys
+//@   ensures[C02] type: !isObj(v) ==> result0 == nil && isTypeErr(result1)
+//@   ensures[C02 C15] value: isObj(v) ==> result1 == nil && isArr(result0) && len(arr(result0)) == len(obj(v)) && (forall j Int :: 0 <= j && j < len(arr(result0)) ==> isStr(arr(result0)[j]) && has(obj(v), str(arr(result0)[j])))
+//@ func values
+//@   ensures[C02] type: !isObj(v) ==> result0 == nil && isTypeErr(result1)
+//@   ensures[C02 C15] value: isObj(v) ==> result1 == nil && isArr(result0) && len(arr(result0)) == len(obj(v))
+//@ func objectValues
+//@   ensures[C01] nonobject: !isObj(v) ==> result == nil
+//@   ensures[C01 C15] value: isObj(v) ==> isArr(result) && len(arr(result)) == len(obj(v))
+//@ func items
+//@   ensures[C02] type: !isObj(v) ==> result0 == nil && isTypeErr(result1)
+//@   ensures[C02 C15] value: isObj(v) ==> result1 == nil && isArr(result0) && len(arr(result0)) == len(obj(v))
+
+//@ func fromItems
+//@   tags C02 C03 C06
+//@   ensures[C02] type: !isArr(v) ==> result0 == nil && isTypeErr(result1)
+//@   ensures[C02] failure: result1 != nil ==> result0 == nil
+//@   ensures[C02] value: isArr(v) && result1 == nil ==> isObj(result0) && fresh(obj(result0)) && (forall j Int :: 0 <= j && j < len(arr(v)) ==> isArr(arr(v)[j]) && len(arr(arr(v)[j])) == 2 && isStr(arr(arr(v)[j])[0]) && has(obj(result0), str(arr(arr(v)[j])[0])))
+//@   loop 1
+//@     invariant[C02] pairs: isArr(v0) && a == arr(v0) && fresh(r) && r != nil && (forall j Int :: 0 <= j && j < iter ==> isArr(a[j]) && len(arr(a[j])) == 2 && isStr(arr(a[j])[0]) && has(r, str(arr(a[j])[0])))
+//@ func reverse
+//@   ensures[C02] type: !isStr(v) && !isArr(v) ==> result0 == nil && isTypeErr(result1)
+//@   ensures[C02 C11] string: isStr(v) ==> result1 == nil && isStr(result0)
+//@   ensures[C02] array: isArr(v) ==> result1 == nil && isArr(result0) && len(arr(result0)) == len(arr(v)) && (forall k Int :: 0 <= k && k < len(arr(v)) ==> arr(result0)[k] == arr(v)[len(arr(v)) - 1 - k])
+//@ func sum
+//@   tags C02 C05 C03 C06
+//@   ensures[C02] type: !isArr(v) ==> result0 == nil && isTypeErr(result1)
+//@   ensures[C02 C08] failure: result1 != nil ==> result0 == nil
+//@ func avg
+//@   tags C02 C05 C03 C06
+//@   ensures[C02] type: !isArr(v) ==> result0 == nil && isTypeErr(result1)
+//@   ensures[C02 C08] failure: result1 != nil ==> result0 == nil
+//@ func toString
+//@   tags C02 C03 C06 C08
+//@   ensures[C02] string: isStr(v) ==> result1 == nil && result0 == v
+//@   ensures[C02] other: !isStr(v) && result1 == nil ==> isStr(result0)
+//@   ensures[C02 C08] failure: result1 != nil ==> result0 == nil && isType(result1, "*github.com/woodsbury/jmespath/internal/evaluator.stringConversionError")
